@@ -1,5 +1,6 @@
 from __future__ import annotations
 
+import math
 import string
 from itertools import product, combinations, groupby
 from collections import namedtuple, defaultdict
@@ -766,8 +767,10 @@ def lambdify(args: dict, exprs: list, funcname: str, dependencies: tuple = None,
         _exprs = list('0' for expr in _exprs)
     funcstr = funcprinter.doprint(funcname, iterable_args, names, _exprs, cses=cses)
 
-    # Provide lambda expression with builtins, and compatible implementation of range
-    namespace = {'builtins': builtins, 'range': range}
+    # Provide lambda expression with builtins, and compatible implementation of range.
+    # Coefficients may contain functions and constants (cos, sqrt, pi, ...), which are printed by their math names.
+    namespace = {**{name: obj for name, obj in vars(math).items() if not name.startswith('_')},
+                 'builtins': builtins, 'range': range}
 
     funclocals = {}
     filename = f'<{funcname}>'
